@@ -360,7 +360,7 @@ func lightHyps(hs []*Term, qs []*QFact) ([]*Term, []*QFact) {
 	}
 	var lq []*QFact
 	for _, q := range qs {
-		if q.Name == "fold" || q.Name == "absorb" || q.Name == "stackrel" {
+		if q.Name == "fold" || q.Name == "absorb" || q.Name == "stackrel" || q.Name == "DVstep" || q.Name == "DVsticky" {
 			continue
 		}
 		if heavyTerm(q.Body) || (q.Guard != nil && heavyTerm(q.Guard)) {
@@ -369,4 +369,43 @@ func lightHyps(hs []*Term, qs []*QFact) ([]*Term, []*QFact) {
 		lq = append(lq, q)
 	}
 	return lh, lq
+}
+
+// hypTiers returns progressively larger hypothesis sets (each a subset of the full one, so a
+// proof from any of them is sound): without the specification run and the expensive axiom
+// schemas; without the 128-bit decimal-value step axioms; everything.
+func hypTiers(hs []*Term, qs []*QFact, goal *Term) [][2]interface{} {
+	var out [][2]interface{}
+	hasHeavy := false
+	for _, h := range hs {
+		if heavyTerm(h) {
+			hasHeavy = true
+			break
+		}
+	}
+	special := func(n string) bool { return n == "fold" || n == "absorb" || n == "stackrel" || n == "DVstep" || n == "DVsticky" }
+	hasSpecial, hasDV := false, false
+	for _, q := range qs {
+		if special(q.Name) {
+			hasSpecial = true
+		}
+		if q.Name == "DVstep" {
+			hasDV = true
+		}
+	}
+	if (hasHeavy || hasSpecial) && !heavyTerm(goal) {
+		lh, lq := lightHyps(hs, qs)
+		out = append(out, [2]interface{}{lh, lq})
+	}
+	if hasDV {
+		var q2 []*QFact
+		for _, q := range qs {
+			if q.Name != "DVstep" {
+				q2 = append(q2, q)
+			}
+		}
+		out = append(out, [2]interface{}{hs, q2})
+	}
+	out = append(out, [2]interface{}{hs, qs})
+	return out
 }
